@@ -13,7 +13,8 @@ Python `None` as `~`, a raised `ValueError` as `!`.
   std resolve <name> <address|!>                          → ok
   init <url> <hostname> <port|~> <scheme> <redirectable 0|1> (~ | <tls 0|1> <chost> <cport>)   → effects
   request <method> <path> <bodyhex> (<key> <value>)*      → effects
-  resp <status> <location|~> <clen> <blen> <body>         → effects
+  requestp …same…                                         → effects  (the socket takes only part of the request: `send … *`)
+  resp <status> <location|~> <clen> <blen> <body>         → effects[;txq <entries in connector.txes after serviceResponse>]
   final                                                   → final <waited> <#redirects> <#responses> …
   region D34e <location>                                  → 1 | 0   (Lean predicate `lossyLocation`)
 effects: `none` or `;`-joined `close` | `open ip port tls` | `send ip port tls method target host body` |
@@ -81,6 +82,14 @@ def fmtEffect : Effect → String
 def fmtEffects (es : List Effect) : String :=
   if es.isEmpty then "none" else ";".intercalate (es.map fmtEffect)
 
+/-- a request the socket took only partly: the server end has seen its head, not its whole body (`*`) -/
+def fmtEffectPartial : Effect → String
+  | .send c s => "send " ++ fmtConn c ++ " " ++ hex s.method ++ " " ++ hex s.target ++ " " ++ hex s.host ++ " *"
+  | e => fmtEffect e
+
+def fmtEffectsPartial (es : List Effect) : String :=
+  if es.isEmpty then "none" else ";".intercalate (es.map fmtEffectPartial)
+
 def fmtErr : Err → String
   | .attributeError => "err AttributeError"
   | .valueError => "err ValueError"
@@ -103,13 +112,14 @@ def fmtFinal (p : Patron) : String :=
 
 def hasMiss (reply : String) : Bool := (reply.splitOn "004d495353").length > 1
 
-def reply (es : List Effect) (err : Option Err) : String :=
+def reply (es : List Effect) (err : Option Err) (partialSend : Bool := false) : String :=
+  let f := if partialSend then fmtEffectsPartial else fmtEffects
   match err with
-  | none => fmtEffects es
-  | some e => if es.isEmpty then fmtErr e else fmtEffects es ++ ";" ++ fmtErr e
+  | none => f es
+  | some e => if es.isEmpty then fmtErr e else f es ++ ";" ++ fmtErr e
 
-def finishOut (st : St) (o : Out) : St × String :=
-  let s := reply o.es o.err
+def finishOut (st : St) (o : Out) (partialSend : Bool := false) (suffix : String := "") : St × String :=
+  let s := reply o.es o.err partialSend ++ (if o.err.isNone then suffix else "")
   if hasMiss s then ({ st with dead := true }, "std-miss")
   else match o.err with
     | some _ => ({ st with dead := true }, s)
@@ -170,6 +180,17 @@ def stdLine (t : Table) : List String → Option Table
     | _, _ => none
   | _ => none
 
+def doRequest (st : St) (flush : Bool) (m pa b : String) (kv : List String) : St × String :=
+  match str? m, str? pa, hexToBytes? b, pairs? kv with
+  | some m, some pa, some b, some kv =>
+    if st.dead then (st, "dead") else
+    match st.pat with
+    | none => (st, "bad-op")
+    | some p =>
+      finishOut st (Ioflo.Redirect.step st.tbl.std p (.request { method := m, path := pa, qargs := kv, body := b, flush := flush }))
+        (!flush)
+  | _, _, _, _ => (st, "bad-op")
+
 def step (st : St) (line : String) : St × String :=
   match words line with
   | ["begin"] => ({}, "ok")
@@ -190,22 +211,20 @@ def step (st : St) (line : String) : St × String :=
       if rd != "0" && rd != "1" then (st, "bad-op") else
       finish st (initPatron st.tbl.std u h port sc conn (rd == "1"))
     | _, _, _, _, _ => (st, "bad-op")
-  | "request" :: m :: pa :: b :: kv =>
-    match str? m, str? pa, hexToBytes? b, pairs? kv with
-    | some m, some pa, some b, some kv =>
-      if st.dead then (st, "dead") else
-      match st.pat with
-      | none => (st, "bad-op")
-      | some p => finishOut st (Ioflo.Redirect.step st.tbl.std p (.request { method := m, path := pa, qargs := kv, body := b }))
-    | _, _, _, _ => (st, "bad-op")
+  | "request" :: m :: pa :: b :: kv => doRequest st true m pa b kv
+  | "requestp" :: m :: pa :: b :: kv => doRequest st false m pa b kv
   | ["resp", status, loc, clen, blen, body] =>
     match status.toNat?, optStr? loc, clen.toNat?, blen.toNat?, hexToBytes? body with
     | some status, some loc, some clen, some blen, some body =>
       if st.dead then (st, "dead") else
       match st.pat with
       | none => (st, "bad-op")
-      | some p => finishOut st (Ioflo.Redirect.step st.tbl.std p
-          (.response { status := status, location := loc, clen := clen, blen := blen, body := body }))
+      | some p =>
+        let r : Resp := { status := status, location := loc, clen := clen, blen := blen, body := body }
+        -- length of `connector.txes` when `Patron.serviceResponse` returns from dealing with a complete response
+        let a := serviceResponse st.tbl.std p r
+        let suffix := if a.err.isNone && !(a.es == [Effect.stall]) then ";txq " ++ toString a.p.unsent.length else ""
+        finishOut st (Ioflo.Redirect.step st.tbl.std p (.response r)) false suffix
     | _, _, _, _, _ => (st, "bad-op")
   | ["region", "D34e", loc] =>
     match str? loc with
